@@ -105,6 +105,11 @@ class Program:
                                     name = '%s.%s.%s' % (pk, a['name'], key[1])
                                     self.aliases[name] = fk
                                     self.display[fk] = name
+                                    # function literals inside the closure: pkg.var.Field$1, $1$2, ...
+                                    for k2 in list(self.funcs):
+                                        if k2.startswith(fk + '$'):
+                                            self.aliases[name + k2[len(fk):]] = k2
+                                            self.display[k2] = name + k2[len(fk):]
 
     def resolve(self, key):
         return self.aliases.get(key, key)
